@@ -133,6 +133,43 @@ CHECKS = {
         technique="exhaustive structured mutation neighbourhood + Hypothesis + atheris, implication oracle against an independent predicate",
         engine="refwire+vloop",
     ),
+    "C11": dict(
+        category="exploration",
+        text="Every table of ET/DT/ES is decoded with _map_response for block classes all-00/all-FF/7FFF/8000/sentinel mixes/"
+             "patterned/Hypothesis words (ES: every announced payload length 0..255); the public bulk and single-value calls run on "
+             "simulated inverters with generated register images; every eco-mode/schedule group sensor type has EACH 16-bit field "
+             "swept over all 65,536 values on six base patterns; a metamorphic step makes one sensor undecodable and requires all "
+             "other values unchanged. Only values/None (bulk) or values/ValueError (single) are accepted, every id must be present.",
+        design_ref="DESIGN.md section 4, C11",
+        note="Trusted: vlib/siminv.py exact-length answers. DT.read_settings_data is outside the property.",
+        technique="block-class enumeration + exhaustive per-field sweeps + Hypothesis, totality oracle (exception-type bucketing)",
+        engine="siminv+refsensor",
+    ),
+    "C12": dict(
+        category="exploration",
+        text="For every typed sensor object found by walking the class tables of ET/DT/ES (runtime and settings) the value read "
+             "from a generated block must equal an independently written per-type reference decoder applied to the bytes at "
+             "(offset - first) x 2 (AA55: plain offset), for several window starts and both Modbus framings, and must not change "
+             "when every foreign byte of the block is re-randomised. 1/2-byte fields are swept exhaustively (quick: one instance per "
+             "type + 250 values per instance; thorough: every instance), wide fields get boundary/patterned/Hypothesis values.",
+        design_ref="DESIGN.md section 4, C12; D4",
+        note="Trusted: vlib/refsensor.py (docstrings, scales named by the property, sentinels pinned by tests/test_sensor.py); "
+             "addresses come from the tables themselves (D4).",
+        technique="exhaustive 16-bit sweeps + Hypothesis, differential against an independent reference decoder, non-interference metamorphic check",
+        engine="refsensor",
+    ),
+    "C13": dict(
+        category="exploration",
+        text="Each table is decoded with _map_response and every derived value is recomputed from the raw values of the same "
+             "dictionary: labels via the const tables (which table belongs to which label is written in the check), bitmap labels "
+             "from the set bits of their code word(s), sums, V x I products within 0.5 of the exact rational, sign/direction rules. "
+             "Every 16-bit value of every code word of every pair is enumerated; blocks with sentinels and Hypothesis word lists "
+             "cover sums/products. A guard fails the run (exit 2) if a label/computed sensor has no relation.",
+        design_ref="DESIGN.md section 4, C13",
+        note="Label texts come from goodwe/const.py (a changed text is not a violation, a sensor wired to the wrong table is).",
+        technique="exhaustive code-word enumeration + Hypothesis, relational oracle inside one decoded result",
+        engine="refsensor",
+    ),
 }
 
 def main():
